@@ -112,6 +112,13 @@ pub fn run(ctx: &Ctx, rep: &mut Report) {
         p.yomigana = true;
         p.mecab = true;
         p.regex = Some(("[a-z]+[0-9]*".to_string(), true, 32));
+        if !miri && idx % 4 == 1 {
+            // a pattern whose second alternative is not anchored, with the provider's debug checks on: some analyses end
+            // in an error value, in every thread and every time exactly as in the single-threaded run
+            p.regex = Some(("[0-9]+|[a-z]+".to_string(), true, 32));
+            p.regex_debug = true;
+            rep.count("repetitions_with_regex_debug_errors_possible", 1);
+        }
         p.join_numeric = Some(true);
         p.join_katakana = Some(2);
         p.inhibit = vec![(0, 0)];
